@@ -489,6 +489,7 @@ def execute(plan, inst, keep_log=False):
         step_no[0] += 1
         kind = op["op"]
         fs.now += op.get("dt", 0)
+        stats["sim_clock_seconds"] = stats.get("sim_clock_seconds", 0) + op.get("dt", 0)
         if last_task[0] is not None and last_task[0] != t and any(
                 (not h.done) and h.first_advanced_step is not None for h in handles.values()):
             stats["inflight_interleavings"] += 1
